@@ -188,6 +188,20 @@ def templates(pyver, tier, rng=None):
     add("sig-async", "async def f(a, *b, c=1):\n    await a\nasync def g(a, *, b):\n    yield a\n")
     add("doc-shapes", 'def a():\n    "doc"\ndef b():\n    b"x"\ndef c():\n    "doc"; return "doc"\ndef d():\n    x = "nodoc"\n    return x\ndef e():\n    return "first str const"\nf = lambda: "lam"\n')
     add("comprehensions", "a = [i for i in x]\nb = {i for i in x}\nc = {i: i for i in x}\nd = (i for i in x)\nasync def f():\n    return [i async for i in x]\n")
+    # scopes with the implicit '.0' parameter whose first constant is a string, in every flavour that makes them
+    # plain / generator / coroutine / async generator (await in the element or the condition vs. async for)
+    add("implicit-scope-first-const-str",
+        "async def f(xs, g):\n"
+        "    a = (await g('key', x) for x in xs)\n"
+        "    b = [await g('k2', x) for x in xs]\n"
+        "    c = {await g('k3', x) for x in xs}\n"
+        "    d = {x: await g('k4', x) for x in xs}\n"
+        "    e = (x async for x in xs if x != 'sep')\n"
+        "    h = (x for x in xs if await g('k5', x))\n"
+        "    i = ['k6' + x async for x in xs]\n"
+        "    return a, b, c, d, e, h, i\n"
+        "def s(xs):\n"
+        "    return [x for x in xs if x != 'sep'], (x + 't' for x in xs), {x: 'v' for x in xs}, {'w' + x for x in xs}\n")
     add("future-annotations", "from __future__ import annotations\ndef f(a: int) -> str:\n    x: int = 1\n    return a\n")
     for fut in ("division", "absolute_import", "print_function", "unicode_literals", "generator_stop", "barry_as_FLUFL", "with_statement", "nested_scopes", "generators"):
         src = "from __future__ import %s\ndef f(): return 1\n" % fut
